@@ -62,7 +62,8 @@ def _run(ctx):
     if pid == "C28":
         rule = ("every exported class vector (quick: at most two fields off their base class, so every pair of classes; "
                 "thorough: full product) is built as a real value, written with the real write/compose, followed by four "
-                "kinds of trailing bytes and read with the real read/parse; oracle: value equal field by field (times at "
+                "kinds of trailing bytes and read with the real read/parse - from a slice and from readers that hand out 1, 5/2 and "
+                "31/1/64 bytes per call (Read::read may return less than asked for: a BufReader at the end of its buffer); oracle: value equal field by field (times at "
                 "one-second resolution), consumed length = written length; plus the current time, StoredPointHeader::new "
                 "and the optional binio primitives around their sentinels; non-trivial = every round trip, distinct by "
                 "(record, classes, trailing, size)")
